@@ -48,8 +48,17 @@ def gen_points(rng, n, dim, den=8, lo=-16, hi=16):
 
 
 def gen_weights(rng, n, unit_chance=0.15):
-    if rng.chance(unit_chance):
+    """Positive dyadic weights. Profiles: all one; all <= 1 (e.g. exact conic arcs); all >= 1; mixed."""
+    x = rng.random()
+    if x < unit_chance:
         return [1.0] * n
+    if x < unit_chance + 0.12:
+        w = [rng.choice([0.5, 0.75, 1.0, 1.0]) for _ in range(n)]
+        if all(v == 1.0 for v in w):
+            w[rng.randrange(n)] = 0.75
+        return w
+    if x < unit_chance + 0.24:
+        return [rng.randint(4, 16) / 4.0 for _ in range(n)]
     return [rng.randint(2, 16) / 4.0 for _ in range(n)]
 
 
